@@ -15,7 +15,7 @@ PROP = "C03"
 LEVEL = "exploration"
 ENGINE = "BL"
 N = {"quick": 3000, "thorough": 200000}
-TIME = {"quick": 40, "thorough": 420}
+TIME = {"quick": 300, "thorough": 420}
 RULE = ("Two workloads at the Broker.rebalance boundary. (a) rebalances inside random broker histories (C01 generator: prior "
         "holdings long/short/leveraged/mixed spot+futures, spreads, fees, weights or contract counts, targets negative, >1, zero, "
         "contracts dropped from the target): every targeted contract ends at position x multiplier x execution-side quote == "
